@@ -18,13 +18,15 @@ from hv import Case
 from props import c16
 
 SPEC = {
-    "lean_modules": ["Honeycomb.Props.C17"],
+    "lean_modules": ["Honeycomb.Props.C17", "Honeycomb.Props.C17Surf"],
     "gen": ["anchors"],
     "required_theorems": [
         "C17_classify_frame", "C17_classify_WF", "C17_classify_ok_all_anchored",
         "C17_markCurve_terminates", "C17_markCurve_ok_of_closed", "C17_markCurve_err_leaves_boundary",
         "C17_core_faces_and_boundary_edges_anchored", "C17_boundary_loop_terminates", "C17_classify_terminates",
         "C17_classify_assertion_can_fire",
+        "C17_surface_edge_faces", "C17_edge_anchor_kinds", "C17_faces_across_non_curve_edge_same",
+        "C17_surface_connected_same", "C17_same_surface_linked",
         "C17_vertex_merge_comm", "C17_vertex_merge_idem", "C17_vertex_merge_assoc", "C17_vertex_merge_lower_dim",
         "C17_vertex_merge_fails_iff", "C17_edge_merge_fails_iff", "C17_face_merge_fails_iff",
     ],
@@ -50,8 +52,10 @@ SPEC = {
         "(C17_classify_ok_all_anchored is the statement WITH the assertions, as in the debug build the harness runs). It is "
         "false on arbitrary well-formed maps: a dangling edge inside a face leaves its tip vertex unanchored and the debug "
         "assertion panics (both drivers agree, stream `small maps`); validated on every generated capture (no panic)",
-        "one surface id per set of faces connected without crossing a curve / distinct ids across curves; boundary "
-        "vertices end with Node or Curve and interior ones with Surface: evaluated by the oracle on the real implementation",
+        "boundary vertices end with Node or Curve and interior ones with Surface: evaluated by the oracle on the real "
+        "implementation (one surface id per region and distinct ids across curves are now theorems: Props/C17Surf.lean, "
+        "for maps without edge/face anchors before the call; also evaluated by the oracle: surface-split, surface-shared, "
+        "edge-surface-mismatch)",
         "the lazily evaluated first loop re-reads VertexAnchor after earlier mark_curve calls: a Curve-anchored vertex with a "
         "larger id than the node starts a new curve (modelled, agrees with the implementation on hand-made maps; harmless "
         "on capture outputs where point-of-interest vertices have the largest ids)",
